@@ -71,3 +71,30 @@ Example C17_tie_example :
   fst (gen_newton nabs sq2 1%Q (fun x => 2 * x)%Q (1#100)%Q 50 true) =
     enc_res (newton sq2 (fun x => 2 * x)%Q (1#100)%Q 1%Q 50 true).
 Proof. vm_compute. repeat split; try (do 3 eexists; reflexivity). Qed.
+
+(* brent_max (scalar_maximization.py) as regenerated from the current source = C17/Model.v's brent_max, for every NumX
+   instance and every objective (proof by stages of the loop body in C17/TieGen2.v).  np.sqrt(2.2e-16), np.sqrt(5.0) are
+   parameters sqrt_eps, sqrt5 of the generated kernel; the model's golden_mean is 0.5*(3.0 - sqrt5).  BMFuel (model fuel
+   exhausted) is not a value the code can return and is excluded. *)
+From QE Require Import C17.TieGen2.
+Theorem C17_tie_brent_max :
+  forall (T : Type) (NX : NumX T) (f : T -> T) (sqrt_eps golden_mean xtol : T) (maxfun : Z) (isfin : T -> bool) (sqrt5 a b : T)
+         (maxiter : Z),
+  isfin = nisfin -> golden_mean = nmul nhalf (nsub nthree sqrt5) -> maxfun = maxiter ->
+  match brent_max f sqrt_eps golden_mean a b xtol maxiter with
+  | BMFuel => True
+  | BMErr => exists msg, gen_brent_max isfin sqrt_eps nhalf nthree sqrt5 nopp nabs ntwo nsign f a b xtol maxiter = (inl msg, true)
+  | BMRes x fv st n =>
+    gen_brent_max isfin sqrt_eps nhalf nthree sqrt5 nopp nabs ntwo nsign f a b xtol maxiter = (inr (x, fv, (st, n)), true)
+  end.
+Proof. exact (@gen_brent_max_tie). Qed.
+Print Assumptions C17_tie_brent_max.
+
+(* non-vacuity: f(x) = -(x-1)^2 on [0, 3] over Q with rational stand-ins for the two square roots *)
+Example C17_tie_brent_max_example :
+  let g := gen_brent_max nisfin (1#100000)%Q nhalf nthree (9#4)%Q nopp nabs ntwo nsign (fun x => - ((x - 1) * (x - 1)))%Q 0%Q 3%Q (1#100)%Q 50 in
+  match brent_max (fun x => - ((x - 1) * (x - 1)))%Q (1#100000)%Q (nmul nhalf (nsub nthree (9#4)%Q)) 0%Q 3%Q (1#100)%Q 50 with
+  | BMRes x fv st n => g = (inr (x, fv, (st, n)), true) /\ st = 0
+  | _ => False
+  end.
+Proof. vm_compute. split; reflexivity. Qed.
